@@ -44,14 +44,15 @@ class Corners(Part):
     family = "corner09"
     exec_module = "Corner09Exec"
     one_per_process = True
-    KINDS = {"nilmsg": 1, "events_gone": 2, "sub_response": 3, "sub_self": 4, "remote_dead_sub": 5}
-    OUT = {"ok": 0, "panic": 1, "diverged": 2, "blocked": 3}
-    branch_names = {1: "nil_message", 2: "event_stream_gone", 3: "response_mailbox_subscribed", 4: "event_stream_subscribed_to_itself", 5: "dead_subscriber_on_engine_with_remote"}
+    KINDS = {"nilmsg": 1, "events_gone": 2, "sub_response": 3, "sub_self": 4, "remote_dead_sub": 5, "concurrent_stops": 6}
+    OUT = {"ok": 0, "panic": 1, "diverged": 2, "blocked": 3, "registered": 4}
+    branch_names = {1: "nil_message", 2: "event_stream_gone", 3: "response_mailbox_subscribed", 4: "event_stream_subscribed_to_itself", 5: "dead_subscriber_on_engine_with_remote", 6: "send_after_concurrent_stops"}
     crash_obs = {"outcome": "panic", "dead": 0, "events": 0, "note": "the harness process died"}
 
     def generate(self, rng, tier):
         cs = [{"kind": "nilmsg", "k": 0}, {"kind": "events_gone", "k": 0}, {"kind": "sub_response", "k": 3},
-              {"kind": "sub_response", "k": 7}, {"kind": "sub_self", "k": 2}, {"kind": "remote_dead_sub", "k": 2}]
+              {"kind": "sub_response", "k": 7}, {"kind": "sub_self", "k": 2}, {"kind": "remote_dead_sub", "k": 2},
+              {"kind": "concurrent_stops", "k": 48}, {"kind": "concurrent_stops", "k": 6}]
         return [{"input": c, "class": c["kind"]} for c in cs]
 
     def to_coq(self, inp, obs):
